@@ -762,6 +762,11 @@ pub mod implementations {
                     ctx.add_frame(Cow::Owned(format!("<native code>#{variant:?}")));
                     match variant.run(ctx).with_context(|| format!("built-in function raised an exception: {variant:?}()"))? {
                         (Some(primitive), None) => {
+                            // a present optional is represented by the plain value everywhere else
+                            let primitive = match primitive {
+                                Primitive::Optional(Some(ref present)) => present.as_ref().clone(),
+                                other => other,
+                            };
                             ctx.clear_and_set_stack(primitive);
                         }
                         (None, Some(bridge)) => {
